@@ -30,6 +30,11 @@ type MemEnd struct {
 	l, r   net.Addr
 	Sent   []byte // everything ever written by this end (traffic log for oracles)
 	Writes int
+	// virtual-time stamps for the exchange oracles
+	LastWriteAt time.Time
+	AppReqAt    time.Time // last write of an application request (not CER/DWR)
+	ClosedAt    time.Time
+	UnreadAtClose int // bytes the peer had sent that this end had not read when it closed
 }
 
 func (c *MemEnd) Read(p []byte) (n int, err error) {
@@ -61,13 +66,25 @@ func (c *MemEnd) Write(p []byte) (n int, err error) {
 		c.Peer.buf = append(c.Peer.buf, p...)
 		c.Sent = append(c.Sent, p...)
 		c.Writes++
+		c.LastWriteAt = time.Now()
+		if len(p) >= 8 {
+			if code := uint32(p[5])<<16 | uint32(p[6])<<8 | uint32(p[7]); p[4]&0x80 != 0 && code != 257 && code != 280 && code != 282 {
+				c.AppReqAt = c.LastWriteAt
+			}
+		}
 		n = len(p)
 	})
 	return
 }
 
 func (c *MemEnd) Close() error {
-	vs.Gate("net.Close", c.ID, nil, func() { c.Closed = true })
+	vs.Gate("net.Close", c.ID, nil, func() {
+		if !c.Closed {
+			c.ClosedAt = time.Now()
+			c.UnreadAtClose = len(c.buf)
+		}
+		c.Closed = true
+	})
 	return nil
 }
 func (c *MemEnd) LocalAddr() net.Addr                { return c.l }
@@ -115,6 +132,22 @@ func MemOpenTo(addr string) (open int) {
 }
 
 func MemDials() int { return memDials }
+
+// MemAbandoned lists client ends that were closed locally less than min after their last request although
+// the peer's answer (its second message: the first is the handshake answer) had not been read completely.
+func MemAbandoned(min time.Duration) (out []string) {
+	for i := 0; i+1 < len(MemEnds); i += 2 {
+		a, b := MemEnds[i], MemEnds[i+1]
+		if !a.Closed || a.ClosedAt.IsZero() || a.AppReqAt.IsZero() {
+			continue
+		}
+		answered := b.Writes >= 2 && a.UnreadAtClose == 0
+		if !answered && a.ClosedAt.Sub(a.AppReqAt) < min {
+			out = append(out, fmt.Sprintf("%s closed %v after its request (peer had written %d message(s), %d byte(s) unread)", a.ID, a.ClosedAt.Sub(a.AppReqAt), b.Writes, a.UnreadAtClose))
+		}
+	}
+	return
+}
 
 // MemCloseAll is used at teardown (scheduler passive).
 func MemCloseAll() {
